@@ -130,6 +130,12 @@ func (g *gen) part(richness, pInvalid int, allowBad bool) *Part {
 	if g.pct(richness / 3) {
 		p.MM = map[string][]string{words[g.r.IntN(len(words))]: {fmt.Sprintf("mm%d", n)}}
 	}
+	if g.pct(richness / 3) {
+		p.MA = map[string]int{}
+		for i, k := 0, g.in(1, 4); i < k; i++ {
+			p.MA[words[g.r.IntN(len(words))]] = n*10 + g.in(0, 1)
+		}
+	}
 	if g.pct(richness) {
 		p.NestS = sp(fmt.Sprintf("ns%d", n))
 	}
